@@ -6,7 +6,7 @@ Import ListNotations.
 From Coquelicot Require Import Coquelicot.
 From PD Require Import Model.Num Model.NumZ Model.Perturbed Gen.Gen_spherical Gen.Gen_spherical_index
   Gen.Gen_perturbed Proofs.PerturbedSeries Proofs.PerturbedInt Proofs.PerturbedCurv Proofs.Perturbed3d
-  Proofs.C13.
+  Proofs.PerturbedHarm Proofs.C13.
 Local Open Scope R_scope.
 
 (* interface_distance is R0 (1 + harmonic series), in all three classes *)
@@ -139,6 +139,65 @@ Theorem C13_volume_approx_first_order :
 Proof. exact volume_approx_first_order. Qed.
 Print Assumptions C13_volume_approx_first_order.
 
+(* (a) the closed forms of the real spherical harmonics of degree <= 4 (modes k = 0..24 in the code's
+   ordering; tied to the library's harmonics by sample goals) and of the axisymmetric harmonics of degree
+   <= 4 satisfy the Laplace-Beltrami eigen-equation; `degree k` is the generated spherical_index_lm *)
+Theorem C13_harmonics_eigen :
+  (forall k theta phi, (k <= 24)%nat -> sin theta <> 0 ->
+     LB (Yreal k) theta phi = - (degree k * (degree k + 1)) * Yreal k theta phi) /\
+  (forall l theta phi, (l <= 4)%nat -> sin theta <> 0 ->
+     LB (fun t _ => Ysym l t) theta phi = - (INR l * (INR l + 1)) * Ysym l theta).
+Proof. exact (conj Yreal_eigen Ysym_eigen). Qed.
+Print Assumptions C13_harmonics_eigen.
+
+(* (b) mean curvature of the radial graph r = R0 (1 + eps g) to first order in eps:
+   H = 1/R0 - eps (2 g + Laplace-Beltrami g)/(2 R0) + o(eps); H_radial is the radial-graph formula
+   (a definition, see Model/Perturbed.v; compared numerically with a level-set curvature on every run) *)
+Theorem C13_mean_curvature_first_order :
+  (forall theta r, 0 < r -> 0 < sin theta -> H_radial theta r 0 0 0 0 0 = / r) /\
+  (forall theta R0 y yt yp ytt ytp ypp, 0 < R0 -> 0 < sin theta ->
+     is_derive (fun e => H_radial theta (R0 * (1 + e * y)) (R0 * (e * yt)) (R0 * (e * yp))
+                                   (R0 * (e * ytt)) (R0 * (e * ytp)) (R0 * (e * ypp))) 0
+               (- (2 * y + LB_jet theta yt ytt ypp) / (2 * R0))).
+Proof. exact (conj H_radial_sphere H_radial_first_order). Qed.
+Print Assumptions C13_mean_curvature_first_order.
+
+(* (c), every degree, relative to the eigen-equation of the modes present (Y k, Yt k, ...: value and
+   partial derivatives of the harmonic of mode k at the direction): the coded correction
+   sum_k a_k (l^2 + l - 2)/2 Y_k / R0 is the true first-order term *)
+Theorem C13_curvature3d_first_order_rel :
+  (forall R0 theta (Y Yt Yp Ytt Ytp Ypp : nat -> R) l, 0 < R0 -> 0 < sin theta ->
+     (forall k, (1 <= k < 1 + length l)%nat ->
+        LB_jet theta (Yt k) (Ytt k) (Ypp k) = - (degree k * (degree k + 1)) * Y k) ->
+     is_derive (fun e => curv3d R0 Y (scale3 e l)
+                - H_radial theta (R0 * (1 + e * series3 w_one Y 1 l)) (R0 * (e * series3 w_one Yt 1 l))
+                    (R0 * (e * series3 w_one Yp 1 l)) (R0 * (e * series3 w_one Ytt 1 l))
+                    (R0 * (e * series3 w_one Ytp 1 l)) (R0 * (e * series3 w_one Ypp 1 l))) 0 0) /\
+  (forall R0 theta (Y Yt Ytt : nat -> R) l, 0 < R0 -> 0 < sin theta ->
+     (forall k, (1 <= k < 1 + length l)%nat -> LB_jet theta (Yt k) (Ytt k) 0 = - (INR k * (INR k + 1)) * Y k) ->
+     is_derive (fun e => curv3s R0 Y (scale3 e l)
+                - H_radial theta (R0 * (1 + e * series3 w_one Y 1 l)) (R0 * (e * series3 w_one Yt 1 l))
+                    0 (R0 * (e * series3 w_one Ytt 1 l)) 0 0) 0 0).
+Proof. exact (conj curvature3d_first_order_rel curvature3s_first_order_rel). Qed.
+Print Assumptions C13_curvature3d_first_order_rel.
+
+(* (c) discharged for the degrees the property names: any amplitude vector over the modes of degree
+   <= 4 (3-d: k = 1..24; axisymmetric: orders 1..4), any radius, any direction off the poles; the exact
+   curvature is the radial-graph formula applied to the generated interface_distance with the
+   closed-form harmonics, all partial derivatives taken with Derive *)
+Theorem C13_curvature3d_first_order :
+  (forall R0 theta phi l, (length l <= 24)%nat -> 0 < R0 -> 0 < sin theta ->
+     is_derive (fun e => curv3d R0 (fun k => Yreal k theta phi) (scale3 e l)
+                         - H_exact3d R0 (scale3 e l) theta phi) 0 0 /\
+     curv3d R0 (fun k => Yreal k theta phi) (scale3 0 l) = / R0 /\
+     H_exact3d R0 (scale3 0 l) theta phi = / R0) /\
+  (forall R0 theta l, (length l <= 4)%nat -> 0 < R0 -> 0 < sin theta ->
+     is_derive (fun e => curv3s R0 (fun k => Ysym k theta) (scale3 e l) - H_exact3s R0 (scale3 e l) theta) 0 0 /\
+     curv3s R0 (fun k => Ysym k theta) (scale3 0 l) = / R0 /\
+     H_exact3s R0 (scale3 0 l) theta = / R0).
+Proof. exact (conj curvature3d_first_order_l4 curvature3s_first_order_l4). Qed.
+Print Assumptions C13_curvature3d_first_order.
+
 (* PARTIAL (surface area): the quadrature of `surface_area` is the rectangle rule over a full period
    applied to the speed |d interface_position / d phi|, i.e. to the arc-length integrand; the
    quadrature error and the second-order claim of surface_area_approx are not proved (numerical
@@ -155,7 +214,7 @@ Print Assumptions C13_surface2d_partial.
 (* non-vacuity: a radius different from 1, two simultaneously non-zero modes, equal-length vectors,
    and an instance of the integral oracle (point evaluation at the pole, harmonics vanishing there) *)
 Example C13_nonvacuous :
-  0 < 2 /\ 2 <> 0 /\ 0 < 3 /\
+  0 < 2 /\ 2 <> 0 /\ 0 < 3 /\ 0 < sin (PI / 2) /\ (length [1 / 10; 0; 0; 1 / 20] <= 24)%nat /\
   length [1 / 10; 0; 0; 1 / 20] = length [0; 1 / 5; 0; 0] /\
   zeros2 [(0, 0); (0, 0)] /\ zeros3 [0; 0; 0] /\
   (exists (DInt : (R -> R -> R) -> R) (Yf : nat -> R -> R -> R),
@@ -165,14 +224,13 @@ Example C13_nonvacuous :
      DInt (fun t _ => sin t) = 4 * PI /\
      (forall k, (1 <= k)%nat -> DInt (fun t p => Yf k t p * sin t) = 0)).
 Proof.
-  repeat split; try lra; try reflexivity.
-  - repeat constructor.
-  - repeat constructor.
-  - exists (fun f => 4 * PI * f (PI / 2) 0), (fun _ _ _ => 0).
-    repeat split.
-    + intros f g. ring.
-    + intros c f. ring.
-    + intros f g H. rewrite H. reflexivity.
-    + rewrite sin_PI2. ring.
-    + intros k _. ring.
+  split; [lra|]. split; [lra|]. split; [lra|]. split; [rewrite sin_PI2; lra|]. split; [simpl; lia|].
+  split; [reflexivity|]. split; [repeat constructor|]. split; [repeat constructor|].
+  exists (fun f => 4 * PI * f (PI / 2) 0), (fun _ _ _ => 0).
+  repeat split.
+  - intros f g. ring.
+  - intros c f. ring.
+  - intros f g H. rewrite H. reflexivity.
+  - rewrite sin_PI2. ring.
+  - intros k _. ring.
 Qed.
